@@ -57,7 +57,7 @@ qb_strerror_r(int errnum, char *buf, size_t buflen)
 }
 
 static int32_t
-open_mmap_file(char *path, uint32_t file_flags)
+open_mmap_file(char *path, uint32_t file_flags, mode_t mode)
 {
 	if (strstr(path, "XXXXXX") != NULL) {
 		mode_t old_mode = umask(077);
@@ -66,7 +66,7 @@ open_mmap_file(char *path, uint32_t file_flags)
 		return temp_fd;
 	}
 
-	return open(path, file_flags, 0600);
+	return open(path, file_flags, mode);
 }
 
 #if defined(QB_BSD) || !defined(HAVE_POSIX_FALLOCATE)
@@ -111,6 +111,13 @@ int32_t
 qb_sys_mmap_file_open(char *path, const char *file, size_t bytes,
 		       uint32_t file_flags)
 {
+	return qb_sys_mmap_file_open_2(path, file, bytes, file_flags, 0600);
+}
+
+int32_t
+qb_sys_mmap_file_open_2(char *path, const char *file, size_t bytes,
+			 uint32_t file_flags, mode_t mode)
+{
 	int32_t fd;
 	int32_t res = 0;
 #ifndef HAVE_POSIX_FALLOCATE
@@ -135,12 +142,12 @@ qb_sys_mmap_file_open(char *path, const char *file, size_t bytes,
 		is_absolute = path;
 #endif
 	}
-	fd = open_mmap_file(path, file_flags);
+	fd = open_mmap_file(path, file_flags, mode);
 	if (fd < 0 && !is_absolute) {
 		qb_util_perror(LOG_ERR, "couldn't open file %s", path);
 
 		snprintf(path, PATH_MAX, "%s/%s", SOCKETDIR, file);
-		fd = open_mmap_file(path, file_flags);
+		fd = open_mmap_file(path, file_flags, mode);
 		if (fd < 0) {
 			res = -errno;
 			qb_util_perror(LOG_ERR, "couldn't open file %s", path);
